@@ -298,6 +298,10 @@ def run(ctx):
     ctx.attempt(whole_busy_set, ctx, "R-4.11", " (its weights are then recorded while busy, and the idle path that took its slot is overwritten without being archived)")
     ctx.rule("R-4.12", "an ensemble is busy exactly while a recorded job holds it: acquires only in functions that record the job in self.locked (shared with C03 R-3.14) - an ensemble left busy without a job is never credited weight again", floor=3)
     ctx.attempt(_r412, ctx)
+    ctx.rule("R-4.13", "a path is replaced only when the move as a whole was accepted (run_md installs the trial paths under the move's status, treat_output archives under the same status): shared with C09 R-9.2", floor=3)
+    from . import c09 as _c09
+    from .shared import RuleProxy as _RP4b
+    ctx.attempt(_c09.r92, _RP4b(ctx, "R-4.13", " (the old path is replaced although write_to_pathens, which runs under status == 'ACC', does not archive it: its accumulated weights are never written and data rows plus live weights no longer add up)"))
     ctx.attempt(r41, ctx)
     ctx.attempt(r42, ctx)
     ctx.attempt(r43, ctx)
@@ -311,6 +315,7 @@ def run(ctx):
 
 
 VARIANTS = [
+    B("c04-trial-installed-under-its-own-status", "infretis/core/tis.py", '        if status == "ACC":\n            minus = True if ens_num < 0 else False', '        if trial.status == "ACC":\n            minus = True if ens_num < 0 else False', "R-4.13", control=True, why="seeded C04_m (= C09_j)"),
     B("c04-busy-flags-restored-at-load", REPEX, '            "frac": np.array(frac, dtype="longdouble"),\n        }\n\n    def pattern_header', '            "frac": np.array(frac, dtype="longdouble"),\n        }\n        for enss0, _ in self.locked0:\n            for ens in enss0:\n                self.lock(ens)\n\n    def pattern_header', "R-4.12", control=True, why="seeded C04_j"),
     B("c04-resort-protects-one-path-per-job", REPEX, "            locks = self.locked_paths()\n            zero_idx", "            locks = [int(pnums[0]) for _, pnums in self.locked]\n            zero_idx", "R-4.11", control=True, why="seeded C04_i"),
     K("c04-keep-resort-busy-set-from-record", REPEX, "            locks = self.locked_paths()\n            zero_idx", "            locks = [int(pn) for _, pnums in self.locked for pn in pnums]\n            zero_idx", why="every path of every job: same set"),
